@@ -18,7 +18,8 @@ def tla_cfg(c):
     return {"loglvl": {"": 20, "DEBUG": 10, "INFO": 20, "WARNING": 30, "ERROR": 40, "CRITICAL": 50}[c.get("loglevel") or ""],
             "loginc": [x for x in names if not x.startswith("-")], "logexc": [x[1:] for x in names if x.startswith("-")],
             "name_on": c.get("names") is not None, "namesel": list(c.get("names") or []),
-            "rootlvl0": bool(c.get("rootlvl0", False)), "wip": bool(c.get("wip", False)), "logclear": bool(c.get("logclear", False)), "stop": c["stop"], "dry": c["dry"], "show_skipped": c["show_skipped"], "cont": c["cont"],
+            "setuplog": {"": 0, "DEBUG": 10, "INFO": 20, "WARNING": 30, "ERROR": 40, "CRITICAL": 50}[c.get("setuplog") or ""],
+            "capdeco": bool(c.get("capdeco", False)), "rootlvl0": bool(c.get("rootlvl0", False)), "wip": bool(c.get("wip", False)), "logclear": bool(c.get("logclear", False)), "stop": c["stop"], "dry": c["dry"], "show_skipped": c["show_skipped"], "cont": c["cont"],
             "cap_out": c["cap_out"], "cap_err": c["cap_err"], "cap_log": c["cap_log"], "expr": c["expr"], "retry": bool(c.get("retry", False)),
             "nodes": [{"op": n[0], "a": n[1], "b": n[2], "name": n[3]} for n in ex["nodes"]], "root": ex["root"]}
 
